@@ -213,6 +213,8 @@ func (e Engine) Generate(r *core.Rand, tier core.Tier) *core.Scenario {
 			}
 		}
 	}
+	// The VRF beacon backend (own PRNG; after all other tuning, see workload_vrf.go).
+	vrfRand := tuneVRF(e.Prop, &k)
 	sc := &core.Scenario{Engine: "chain", Knobs: core.MustJSON(k)}
 	gasFitRand := core.NewRand(core.Derive(core.Hash64([]byte(k.Gen.Salt)), "gas-fit", 0))
 	heights := r.Range(12, 40)
@@ -314,6 +316,14 @@ func (e Engine) Generate(r *core.Rand, tier core.Tier) *core.Scenario {
 				sc.Ops = append(sc.Ops, core.MustJSON(Op{K: "block", Block: &BlockOp{Proposer: r.Intn(8), Take: 20, Dt: 1}}))
 			}
 		}
+		vrfTxs := 0
+		if vrfRand != nil {
+			for _, op := range genVRFOps(vrfRand) {
+				op := op
+				sc.Ops = append(sc.Ops, core.MustJSON(Op{K: "tx", Tx: &op}))
+				vrfTxs++
+			}
+		}
 		if k.Disk && r.Chance(1, 12) {
 			sc.Ops = append(sc.Ops, core.MustJSON(Op{K: "restart", Replica: r.Intn(nrep)}))
 		}
@@ -321,6 +331,7 @@ func (e Engine) Generate(r *core.Rand, tier core.Tier) *core.Scenario {
 		if r.Chance(1, 40) {
 			b.Dt = r.Range(1000, 100_000) // clock jump
 		}
+		b.Take += vrfTxs // (room for the proofs, so that they do not queue up behind the epoch)
 		if r.Chance(1, 3) {
 			b.Order = r.Range(1, 1000)
 		}
